@@ -78,7 +78,7 @@ func checkC14(c *core.Ctx) {
 	c.Rule(fmt.Sprintf("exhaustive: 28 supported keys x every chain over {p,r,d,s} of length 1..%d through `info key conv`, plus the laws ds=sd=rr=pp=d^12=s^12=identity asserted on crd's output, plus random chains of length 7..40; "+
 		"the printed key set must equal the fold of the four pitch-class rules expressed as all supported spellings; non-trivial = chain of length >= 2 from a key other than C that passes through an enharmonic slot; distinct by (key, chain)", L))
 	c.Assume("theory.ConvertPC / SpellingsOf (pitch-class arithmetic)", "output order is not compared here (C12)")
-	c.Exhaustive(true)
+	c.Exhaustive(!c.Quick()) // the space the property names (chains up to length 6) is swept in thorough
 	keys := theory.Supported()
 	chains := chainsUpTo(L)
 	c.Extra("chain_length_swept", L)
